@@ -30,9 +30,9 @@ def pinnedSkeleton : List (String × String) := [
   ("Executable.write", "bdebd1326245"),
   ("Field.String", "235038b68a19"),
   ("Field.Validate", "58181d2e4a99"),
+  ("Field.checkArgs", "8fe29135e2fc"),
   ("Field.getArg", "19ad5e763d53"),
   ("Field.key", "4682fb716138"),
-  ("Field.sortArgs", "2f01671e3f49"),
   ("Field.write", "4d719e643171"),
   ("FragRef.Column", "76112db58cac"),
   ("FragRef.Directives", "ac1a67195301"),
